@@ -119,8 +119,9 @@ class StubCompressor(Native):
             raise ModelRaise("ValueError", ["read of closed file"], cls=ValueError)
         from vf.pysym.values import SFile
 
-        if isinstance(fd, SFile):  # link target text built by Worker.write
-            insize, ident = len(fd.items), "link%d" % (len(self.members) + 1)
+        if isinstance(fd, SFile):  # link target text built by Worker.write, or the raw header being encoded
+            insize, ident = tokens.byte_len(eng, fd.items), "link%d" % (len(self.members) + 1)
+            self.sources = getattr(self, "sources", []) + [list(fd.items)]
         else:
             insize, ident = fd.size, fd.ident
         foutsize = self._fresh("out")
